@@ -49,6 +49,9 @@ CHECKS = {
  "C10": dict(cat="other", tech="symbolic expression extraction by abstract interpretation of the signing pipeline + identity testing against the specified formulas; constants vs re-derived values; call-event data flow",
    text="Static structural preconditions of the distribution claim (the distribution itself is NOT decided): sigma and sigmin of both variants equal the re-derived specification values and sigma/sigmin = 1.17 sqrt q; gram = B B*, ldl (l10 = g10/g00, d11 = g11 - |l10|^2 g00), ffldl's recursion/leaf structure, normalize_tree's leaf update sigma/sqrt(leaf) with zeroed slots and same-sigma recursion, from_b0 = normalize(ffldl(gram(fft b0)), sigma_N) with SecretKey built nowhere else, ffsampling's leaf (sampler_z(t_i, leaf, params.sigmin, rng), result exactly the two sampler outputs) and branch (right child first, t0' = t0 + (t1 - z1) l10, result (z0, z1)), and sign's algebra (t = (c,0)B^-1, s = (t - z)B'' on the verifier's coset for every sampler output, B''B''* = Gram of the key basis, norm over both components, s1 emitted after round) are each decided by comparing the expression tree the interpreter extracts from the MIR with the specified formula at random points.",
    note=TRUST + "Identity testing: error probability negligible. Not decided: any statistical statement; floating-point error; the transforms' numerics (tables: C13).", ref="4/C10"),
+ "C04": dict(cat="other", tech="abstract interpretation of ntru_gen with partitioned symbolic callee models (gate reachability), identity testing of the Gram-Schmidt norm, residue/label flow in from_secret_key and from_b0, constants vs re-derived values",
+   text="Static, for every seed (structural part only): in ntru_gen the NTRU solver and `return` are reachable exactly when every NTT coefficient of f is non-zero (all zero/non-zero patterns of a length-2 transform enumerated) and gamma <= 1.17^2 q (threshold value and direction, boundary points); the tested f, g are the ones solved for and returned, in the order (f, g, F, G); gen_poly draws 4096 times sampler_z(0, sigma* = 1.17 sqrt(q/8192), ..) and sums chunks of 4096/n; gram_schmidt_norm_squared equals max(|f|^2+|g|^2, |q f*/(ff*+gg*)|^2 + |q g*/(ff*+gg*)|^2) (identity test on the extracted expression, both regimes of the max); from_secret_key returns ifft(ntt(g)/ntt(f)) with g = b0[0], f = -b0[1] as residues mod q; from_b0 = normalize_tree(ffldl(gram(fft b0)), sigma_N) and SecretKey is constructed nowhere else.",
+   note=TRUST + "NOT decided: that ntru_solve's output satisfies f G - g F = q, that h f = g (transform algebra), and the numerical range of the tree leaves — algebra and floating point at run-time magnitudes. The silent i32->i16 narrowing of F, G in ntru_gen is not decided either (DESIGN.md, C04-3).", ref="4/C04"),
 }
 NA = {
  "C17": "algebraic/numeric equivalence of two Babai reductions at run-time magnitudes; no structural clause that is both decidable and a substantial necessary condition (DESIGN.md section 4, C17)",
